@@ -200,8 +200,14 @@ def main():
         best = None
         for rec, o in items[:6]:
             path, reproduced = write_replay(prop, rec, o)
+            if o['backend'] == 'z3-bounded-instantiation' and not reproduced:
+                # a candidate that does not replay on the real code is no counterexample: the obligation stays undecided
+                undecided.append({'name': o['name'], 'reason': 'solver gave up; bounded candidate did not reproduce'})
+                continue
             if best is None or (reproduced and not best[2]):
                 best = (path, o, reproduced)
+        if best is None:
+            continue
         path, o, reproduced = best
         tail = '' if reproduced else ' no-failing-input-found'
         violations.append(best)
